@@ -299,4 +299,69 @@ def check(ctx: Ctx) -> list[RuleResult]:
     else:
         r4.fail(f"{ad.short}:duplicate", ad.loc(), "Gateway._add_device no longer refuses a device id that is already registered")
     out.append(r4)
+    # ---- R5 ---------------------------------------------------------------------------
+    # produced device ids ⊆ accepted device ids, where the topology code places *no* constraint on the device: a role branch of
+    # Parent._add_child without any isinstance()/type test on the child admits every device, so the validator of the schema key
+    # that reports this role must accept every well-formed device id (its regex language ⊇ DEVICE_ID_REGEX.ANY). Branches that do
+    # constrain the child's class are not decided (which ids a class may have is configuration, not source).
+    from .. import rx as _rx
+
+    r5 = RuleResult("R5", "an unconstrained role is reported under a key that accepts any device id", "role branches of _add_child with no type test on the child vs the validator of the schema key the role is reported under", min_instances=1)
+    role_key = {"_sensor": ("SCH_TCS_ZONES_ZON", "SZ_SENSOR"), "_dhw_sensor": ("SCH_TCS_DHW", "SZ_SENSOR"), "_dhw_valve": ("SCH_TCS_DHW", "SZ_DHW_VALVE"), "_htg_valve": ("SCH_TCS_DHW", "SZ_HTG_VALVE"), "_app_cntrl": ("SCH_TCS_SYS", "SZ_APPLIANCE_CONTROL")}
+    _ns = ctx.const("ramses_tx.const", "DEVICE_ID_REGEX")
+    _ns_attrs = getattr(_ns, "attrs", _ns if isinstance(_ns, dict) else {})
+    any_pat = getattr(_ns_attrs.get("ANY"), "pattern", None)
+    if not isinstance(any_pat, str):
+        raise AnalysisError("DEVICE_ID_REGEX.ANY could not be folded")
+
+    def branch_of(n: ast.AST) -> ast.If | None:
+        p2 = getattr(n, "parent", None)
+        while p2 is not None and not (isinstance(p2, ast.If) and n in ast.walk(p2) and any(n is x or n in ast.walk(x) for x in p2.body)):
+            p2 = getattr(p2, "parent", None)
+        return p2
+
+    def validator_regex(schema_name: str, key_const: str) -> tuple[str | None, str]:
+        """(regex pattern or None when the key accepts any id, text of the validator)."""
+        val = None
+        for st in sm.tree.body:
+            if isinstance(st, ast.Assign) and any(isinstance(t, ast.Name) and t.id == schema_name for t in st.targets):
+                val = st.value
+        d = val.args[0] if isinstance(val, ast.Call) and norm(val.func) == "vol.Schema" and val.args else val
+        if not isinstance(d, ast.Dict):
+            raise AnalysisError(f"{schema_name} is not a dict-based schema")
+        for k, v in zip(d.keys, d.values):
+            key = k.args[0] if isinstance(k, ast.Call) and norm(k.func) in ("vol.Optional", "vol.Required") and k.args else k
+            if key is not None and norm(key) == key_const:
+                names = [x.id for x in ast.walk(v) if isinstance(x, ast.Name) and x.id.startswith("SCH_DEVICE_ID_")]
+                if len(names) != 1:
+                    raise AnalysisError(f"{schema_name}[{key_const}]: device-id validator not recognised ({norm(v)[:60]})")
+                kind = names[0].rsplit("_", 1)[-1]
+                return getattr(_ns_attrs.get(kind), "pattern", None), names[0]
+        raise AnalysisError(f"{schema_name} has no key {key_const}")
+
+    for n in own_nodes(add.node):
+        if not (isinstance(n, ast.Assign) and len(n.targets) == 1 and isinstance(n.targets[0], ast.Attribute) and n.targets[0].attr in role_key and norm(n.value) == "child"):
+            continue
+        br = branch_of(n)
+        if br is None:
+            continue
+        constrained = any(isinstance(c, ast.Call) and norm(c.func) == "isinstance" and c.args and norm(c.args[0]) == "child" for st in br.body for c in ast.walk(st)) or any(isinstance(x, ast.Attribute) and norm(x) in ("child.type", "child._SLUG", "child.id") for st in br.body for x in ast.walk(st))
+        r5.instances += 1
+        attr = n.targets[0].attr
+        sch_name, key_const = role_key[attr]
+        if constrained:
+            r5.ok({"role": attr, "child": "class-constrained in the topology code: not decided"})
+            continue
+        r5.nontrivial += 1
+        pat, vname = validator_regex(sch_name, key_const)
+        if pat is None:
+            raise AnalysisError(f"{vname}: regex not folded")
+        w = _rx.included(_rx.regex_dfa(any_pat), _rx.regex_dfa(pat))
+        if w is None:
+            r5.ok({"role": attr, "validator": vname, "accepts": "every well-formed device id"})
+        else:
+            r5.fail(f"{add.short}:{attr}:any-device-vs-{vname}", add.loc(n), f"Parent._add_child accepts a device of any type as {attr[1:].replace('_', ' ')} (no type test in that branch), but the schema key it is reported under is validated by {vname} ({pat}), which rejects e.g. '{w}': the reported schema is then refused by the library's own validator")
+    if r5.instances == 0:
+        raise AnalysisError("Parent._add_child: no role assignment found")
+    out.append(r5)
     return out
